@@ -322,6 +322,7 @@ class World:
         self.outcomes = {k: list(v) for k, v in outcomes.items()}
         self.loose = 0
         self.loose_up = 0          # balls loose on the upper playfield
+        self.idle_plunge_t = None  # when the player last plunged a ball out of an idle mechanical launcher
         self.transit_to = collections.Counter()
         self.pending = 0
         self.changes = 0           # counts every physical change (used to detect quiescence)
@@ -640,6 +641,8 @@ class World:
             return False
         if self.now() < d.last_enter + REST_S:
             return False        # the player plunges a ball that has come to rest (and has been counted), not one still arriving
+        if self.mdev and self.mdev["bd_launcher"].state == "idle":
+            self.idle_plunge_t = self.now() + delay_ms / 1000.0      # MPF has no eject set up: it will notice a missing ball
         d.leaving = True
         if weak:
             self.classes.add("weak manual plunge (ball returns)")
@@ -716,6 +719,10 @@ def run(case, focus=None):
                 msg = "[%s] %s" % (sig, msg)
                 sig = ("always:" if sig.startswith("always:") else "rest:") + \
                     "playfields-rebalanced-after-capture-before-eject-confirm"
+            if state.get("request_at_idle_mechanical_eject_notice") and sig in (
+                    "rest:playfield-count-differs", "rest:conservation", "rest:playfield-available-differs", "rest:device-count-differs"):
+                msg = "[%s] %s" % (sig, msg)
+                sig = "rest:ball-lost-from-the-books:request-at-the-instant-an-idle-mechanical-eject-is-noticed"
             if w.mid_eject_entry and not sig.endswith(":capture-before-eject-confirm"):
                 # MPF takes a ball which enters a device while that device's eject is unconfirmed for the ejected ball
                 # coming back (known finding). Its books are off from then on, so everything observed later in this
@@ -954,6 +961,11 @@ def run(case, focus=None):
                 break
             kind = op[0]
             applied = True
+            if kind in ("add_ball", "request", "eject", "eject_all") and w.idle_plunge_t is not None and \
+                    abs(rig.now - (w.idle_plunge_t + 0.5)) <= 0.011:
+                # known finding: a request made in the very millisecond in which MPF notices that a ball has left an idle
+                # mechanical launcher (0.5 s after it left) races with that handling
+                state["request_at_idle_mechanical_eject_notice"] = True
             if kind == "add_ball":
                 pf.add_ball(op[1], player_controlled=op[2])
                 requests["playfield"] += op[1]
